@@ -560,32 +560,44 @@ def setIconName (s : Screen) (t : List Nat) : Screen := { s with icon := t }
 def setCell (s : Screen) (y x : Nat) (c : Cell) : Screen :=
   { s with cell := fun y' x' => if y' == y && x' == x then c else s.cell y' x' }
 
+/-- the wrap test at the head of the loop body, for a character of width `w` that will be drawn:
+    with autowrap, carriage return + linefeed; without, step back so the last column(s) are overwritten -/
+def wrapStage (s : Screen) (w : Nat) : Screen :=
+  if s.cursor.x == s.columns then
+    if s.mode DECAWM then linefeed (cariageReturn (markDirty s s.cursor.y))
+    else setCursorX s (s.cursor.x - w)
+  else s
+
+/-- insert mode: the rest of the row shifts right by the width of the character -/
+def irmStage (s : Screen) (w : Nat) : Screen :=
+  if s.mode IRM then insertCharacters s (some w) else s
+
+/-- store the character (and the placeholder of a double-width one) with the cursor's
+    rendition and advance the cursor -/
+def putChar (s : Screen) (c w : Nat) : Screen :=
+  let s1 := setCell s s.cursor.y s.cursor.x { data := [c], attr := s.cursor.attr }
+  let s2 :=
+    if w == 2 && s1.cursor.x + 1 < s1.columns then
+      setCell s1 s1.cursor.y (s1.cursor.x + 1) { data := [], attr := s1.cursor.attr }
+    else s1
+  setCursorX s2 (min (s2.cursor.x + w) s2.columns)
+
+/-- a zero-width combining mark joins the previously written cell -/
+def combine (env : Env) (s : Screen) (c : Nat) : Screen :=
+  if s.cursor.x > 0 then
+    let old := s.cell s.cursor.y (s.cursor.x - 1)
+    setCell s s.cursor.y (s.cursor.x - 1) { old with data := env.NFC old.data ++ [c] }
+  else if s.cursor.y > 0 then
+    let old := s.cell (s.cursor.y - 1) (s.columns - 1)
+    markDirty (setCell s (s.cursor.y - 1) (s.columns - 1) { old with data := env.NFC old.data ++ [c] })
+      (s.cursor.y - 1)
+  else s
+
 /-- one iteration of the per-character loop of `draw` (after translation) -/
 def drawChar (env : Env) (s : Screen) (c : Nat) : Screen :=
   let w := env.W c
-  let printable := w == 1 || w == 2
-  if printable then
-    let s :=
-      if s.cursor.x == s.columns then
-        if s.mode DECAWM then linefeed (cariageReturn (markDirty s s.cursor.y))
-        else setCursorX s (s.cursor.x - w)
-      else s
-    let s := if s.mode IRM then insertCharacters s (some w) else s
-    let s := setCell s s.cursor.y s.cursor.x { data := [c], attr := s.cursor.attr }
-    let s :=
-      if w == 2 && s.cursor.x + 1 < s.columns then
-        setCell s s.cursor.y (s.cursor.x + 1) { data := [], attr := s.cursor.attr }
-      else s
-    setCursorX s (min (s.cursor.x + w) s.columns)
-  else if w == 0 && env.CM c then
-    if s.cursor.x > 0 then
-      let old := s.cell s.cursor.y (s.cursor.x - 1)
-      setCell s s.cursor.y (s.cursor.x - 1) { old with data := env.NFC old.data ++ [c] }
-    else if s.cursor.y > 0 then
-      let old := s.cell (s.cursor.y - 1) (s.columns - 1)
-      markDirty (setCell s (s.cursor.y - 1) (s.columns - 1) { old with data := env.NFC old.data ++ [c] })
-        (s.cursor.y - 1)
-    else s
+  if w == 1 || w == 2 then putChar (irmStage (wrapStage s w) w) c w
+  else if w == 0 && env.CM c then combine env s c
   else s
 
 /-- `draw(data)` -/
@@ -595,6 +607,12 @@ def draw (env : Env) (s : Screen) (data : List Nat) : Screen :=
 
 /-! ### display -/
 
+/-- `char.chars().next().is_some_and(|c| c.width() == Some(2))` on a cell's text -/
+def wideText (W : Nat → Nat) (d : List Nat) : Bool :=
+  match d.head? with
+  | some c => W c == 2
+  | none => false
+
 /-- the `render` closure of `display()` -/
 def renderRow (env : Env) (s : Screen) (y : Nat) : Nat → Nat → Bool → List Nat
   | 0, _, _ => []
@@ -603,10 +621,7 @@ def renderRow (env : Env) (s : Screen) (y : Nat) : Nat → Nat → Bool → List
       if skip then renderRow env s y fuel (x + 1) false
       else
         let d := (s.cell y x).data
-        let wide := match d.head? with
-          | some c => env.W c == 2
-          | none => false
-        d ++ renderRow env s y fuel (x + 1) wide
+        d ++ renderRow env s y fuel (x + 1) (wideText env.W d)
     else []
 
 /-- `display()` : one string per line -/
